@@ -162,8 +162,14 @@ func (r *Round) AddVerificationTickets(bvts []*block.BlockVerificationTicket) {
 	r.roundGuard.Lock()
 	defer r.roundGuard.Unlock()
 	for i, bvt := range bvts {
-		r.verificationTickets[bvt.Signature] = bvts[i]
+		r.verificationTickets[ticketKey(bvt.BlockID, &bvt.VerificationTicket)] = bvts[i]
 	}
+}
+
+// ticketKey: one collected ticket per verifier and block. (A signature has several textual encodings that all verify -
+// hex in either letter case, for one - so the signature string does not identify a ticket.)
+func ticketKey(blockID string, vt *block.VerificationTicket) string {
+	return blockID + ":" + vt.VerifierID
 }
 
 /*GetVerificationTickets - get verification tickets for a given block in this round */
@@ -180,10 +186,10 @@ func (r *Round) GetVerificationTickets(blockID string) []*block.VerificationTick
 }
 
 // IsTicketCollected checks if the ticket has already verified and collected
-func (r *Round) IsTicketCollected(ticket *block.VerificationTicket) (exist bool) {
+func (r *Round) IsTicketCollected(bvt *block.BlockVerificationTicket) (exist bool) {
 	r.roundGuard.Lock()
-	vt, ok := r.verificationTickets[ticket.Signature]
-	exist = ok && vt.VerificationTicket == *ticket
+	vt, ok := r.verificationTickets[ticketKey(bvt.BlockID, &bvt.VerificationTicket)]
+	exist = ok && vt.VerificationTicket == bvt.VerificationTicket
 	r.roundGuard.Unlock()
 	return
 }
